@@ -208,6 +208,7 @@ func c09FmtTable(thorough bool) []c09FmtCase {
 			}
 		}
 	}
+	out = append(out, c09BoundaryFormatTable()...)
 	for _, h := range c09FmtHuge {
 		lab := []string{"huge " + h}
 		out = append(out, c09FmtCase{segs: lab, ctl: h, table: true})
